@@ -25,30 +25,55 @@ use std::collections::BTreeMap;
 use std::panic::AssertUnwindSafe;
 use verif_harness::*;
 
-/// Byte strings on request / response lines. Lower-case hex (`-` = empty) or, for a long string
-/// that is a short unit repeated, the compact notation `<unit>*<n>` (= the unit cycled to exactly
-/// `n` bytes), optionally after one leading byte: `<b0>+<unit>*<n>`. A string of at least
-/// `COMPACT_MIN` bytes is ALWAYS printed in its compact form when it has one (smallest period
-/// 1..=8 from byte 0, else from byte 1), by the harness and by the Lean driver alike, so the
-/// notation is canonical and the comparison of response lines stays exact. Requests may use `+`
-/// to concatenate any number of hex / `unit*n` segments. These two shadow the plain-hex helpers
-/// of `verif_harness` for everything in this file (short strings print as before).
+/// Byte strings on request / response lines. Lower-case hex (`-` = empty) or, for long strings
+/// with long periodic stretches, `+`-separated segments, each plain hex or `<unit>*<n>` (= the
+/// unit cycled to exactly `n` bytes): `00*1048576`, `5a+00*65535`, `0102*4000+ff+00*70000`.
+/// Printing is canonical — a deterministic greedy segmentation implemented identically here and
+/// in Driver/C01.lean (`hexC`): strings shorter than `COMPACT_MIN` are plain hex; otherwise, at
+/// each position the longest stretch with a period `k <= 8` (smallest `k` on ties) becomes a
+/// `unit*n` segment if it is at least `RUN_MIN` bytes long, else the byte is a literal. So the
+/// comparison of response lines stays exact (the notation decodes to exactly one string), and
+/// replays of cases with payloads of hundreds of KiB stay readable. These two shadow the
+/// plain-hex helpers of `verif_harness` for everything in this file.
 const COMPACT_MIN: usize = 1024;
-
-fn period(b: &[u8]) -> Option<usize> {
-    (1..=8usize).find(|&k| (k..b.len()).all(|i| b[i] == b[i - k]))
-}
+const RUN_MIN: usize = 64;
 
 fn hex(b: &[u8]) -> String {
-    if b.len() >= COMPACT_MIN {
-        if let Some(k) = period(b) {
-            return format!("{}*{}", verif_harness::hex(&b[..k]), b.len());
+    let n = b.len();
+    if n < COMPACT_MIN {
+        return verif_harness::hex(b);
+    }
+    let mut segs: Vec<String> = vec![];
+    let (mut i, mut lit) = (0usize, 0usize);
+    while i < n {
+        let (mut best_k, mut best_len) = (0usize, 0usize);
+        for k in 1..=8usize {
+            if i + k > n {
+                break;
+            }
+            let mut l = k;
+            while i + l < n && b[i + l] == b[i + l - k] {
+                l += 1;
+            }
+            if l > best_len {
+                (best_k, best_len) = (k, l);
+            }
         }
-        if let Some(k) = period(&b[1..]) {
-            return format!("{}+{}*{}", verif_harness::hex(&b[..1]), verif_harness::hex(&b[1..1 + k]), b.len() - 1);
+        if best_len >= RUN_MIN {
+            if lit < i {
+                segs.push(verif_harness::hex(&b[lit..i]));
+            }
+            segs.push(format!("{}*{}", verif_harness::hex(&b[i..i + best_k]), best_len));
+            i += best_len;
+            lit = i;
+        } else {
+            i += 1;
         }
     }
-    verif_harness::hex(b)
+    if lit < n {
+        segs.push(verif_harness::hex(&b[lit..n]));
+    }
+    segs.join("+")
 }
 
 fn unhex(s: &str) -> Option<Vec<u8>> {
@@ -312,6 +337,11 @@ struct Prog {
     shape: Vec<&'static str>,
     /// a "large-chunk" program: chunk sizes of 16 KiB and more, highly compressible payloads
     big: bool,
+    /// large-chunk programs: the kinds of content its payloads are drawn from and the byte that
+    /// constant runs are made of (one byte per program, so that the concatenation of its
+    /// payloads usually still has a compact notation)
+    kinds: &'static [Kind],
+    fill: u8,
 }
 
 fn split(cs: usize, d: &[u8]) -> Option<Vec<Vec<u8>>> {
@@ -344,6 +374,8 @@ impl Prog {
             expect_err: false,
             shape: vec![],
             big: false,
+            kinds: &[Kind::Zero],
+            fill: 0,
         }
     }
     /// graph of the real compressor on the given plain chunks for mode `m` (Z / 4 only)
@@ -364,7 +396,7 @@ impl Prog {
         tab_str(local.iter())
     }
     fn payload(&self, rng: &mut Rng, max: usize) -> Vec<u8> {
-        if self.big && self.cs >= 16 * 1024 {
+        if self.big && self.cs >= 16 * 1024 && matches!(self.mode, "Z" | "4" | "F") {
             // large-chunk program: lengths around the (large) chunk size, content that deflate /
             // LZ4 shrink by two to three orders of magnitude
             let cs = self.cs.min(256 * 1024);
@@ -377,8 +409,8 @@ impl Prog {
                 _ => rng.range(cs as u64 / 2, cs as u64) as usize,
             }
             .min(300 * 1024);
-            let kind = *rng.pick(&[Kind::Zero, Kind::Const, Kind::Period, Kind::ModeByteFirst]);
-            return compressible(rng, kind, n);
+            let kind = *rng.pick(self.kinds);
+            return compressible(rng, kind, n, Some(self.fill));
         }
         let cs = self.cs.min(4096);
         let n = match rng.below(14) {
@@ -434,18 +466,20 @@ impl Prog {
     fn op(&mut self, rng: &mut Rng, pool: &[(u64, [u8; 16])], max: usize) {
         match rng.below(100) {
             0..=7 => {
+                // (large-chunk programs stay with the compressing modes: the model's MD5 / Salsa20
+                // over hundreds of KiB of raw chunk bytes would dominate the run)
                 self.mode = match rng.below(16) {
-                    0 => "E",
+                    0 if !self.big => "E",
                     1 => "F",
-                    2..=5 => "N",
-                    6..=10 => "Z",
+                    2..=5 if !self.big => "N",
+                    0..=10 => "Z",
                     _ => "4",
                 };
                 self.lines.push(format!("mode {}", self.mode));
             }
             8..=13 => {
                 self.cs = if self.big && rng.chance(4, 5) {
-                    *rng.pick(&[16usize << 10, 32 << 10, 64 << 10, 256 << 10, 1 << 20, usize::MAX])
+                    *rng.pick(&[16usize << 10, 16 << 10, 32 << 10, 64 << 10, 1 << 20, usize::MAX])
                 } else {
                     *rng.pick(&[0usize, 1, 1, 2, 3, 5, 5, 16, 64, 64, 1024])
                 };
@@ -505,7 +539,7 @@ impl Prog {
             }
             _ => {
                 let d = self.payload(rng, max);
-                let m = *rng.pick(&["N", "N", "Z", "Z", "4", "4", "E", "F"]);
+                let m = if self.big { *rng.pick(&["Z", "Z", "4", "4", "E", "F"]) } else { *rng.pick(&["N", "N", "Z", "Z", "4", "4", "E", "F"]) };
                 let tab = self.table_for(m, std::slice::from_ref(&d));
                 self.lines.push(format!("chunk {} {} {}", m, hex(&d), tab));
                 self.shape.push("chunk");
@@ -578,17 +612,18 @@ enum Kind {
     Sparse,
 }
 
-fn compressible(rng: &mut Rng, kind: Kind, n: usize) -> Vec<u8> {
+fn compressible(rng: &mut Rng, kind: Kind, n: usize, fill: Option<u8>) -> Vec<u8> {
+    let fill = fill.unwrap_or_else(|| rng.byte());
     match kind {
         Kind::Zero => vec![0; n],
-        Kind::Const => vec![rng.byte(); n],
+        Kind::Const => vec![fill; n],
         Kind::Period => {
             let k = rng.range(2, 8) as usize;
             let u = rng.bytes(k);
             (0..n).map(|i| u[i % u.len()]).collect()
         }
         Kind::ModeByteFirst => {
-            let mut d = vec![rng.byte(); n];
+            let mut d = vec![fill; n];
             if n > 0 {
                 d[0] = *rng.pick(&[b'N', b'Z', b'4', b'E', b'F']);
             }
@@ -624,19 +659,27 @@ fn compressible_family(s: &mut Session, rng: &mut Rng, thorough: bool, pool: &[(
     let entries = ["add", "add+salsa", "add+arc4", "other", "compress", "single"];
     let all_kinds = [Kind::Zero, Kind::Const, Kind::Period, Kind::ModeByteFirst, Kind::Sparse];
     let mut turn = rng.below(64) as usize;
+    let flip = rng.below(2) as usize;
     for &n in sizes {
-        for m in ["Z", "4"] {
-            for entry in entries {
-                // every kind of content on every route for chunks up to 64 KiB; above, the kinds
-                // take turns (Zero / Const / Period / ModeByteFirst; every size x mode sees each)
-                let kinds: Vec<Kind> = if n <= 64 * K || (thorough && n <= 1024 * K) {
-                    all_kinds.iter().copied().filter(|k| *k != Kind::Sparse || n <= 64 * K).collect()
+        for (mi, m) in ["Z", "4"].into_iter().enumerate() {
+            for (ei, entry) in entries.into_iter().enumerate() {
+                turn += 1;
+                // quick tier, chunks above 256 KiB: every other route per mode (the two modes
+                // take complementary halves, the seed decides which)
+                if !thorough && n > 256 * K && (ei + mi + flip) % 2 == 0 {
+                    continue;
+                }
+                // quick tier: every compactly printable kind of content on every route for chunks
+                // of 32 KiB and 64 KiB (where deflate passes 512:1), Sparse (plain hex on the
+                // line) on every third route; at the other sizes the kinds take turns (every
+                // size x mode sees each of Zero / Const / Period / ModeByteFirst)
+                let kinds: Vec<Kind> = if (n > 16 * K && n <= 64 * K) || (thorough && n <= 1024 * K) {
+                    all_kinds.iter().copied().filter(|k| *k != Kind::Sparse || (n <= 64 * K && (thorough || turn % 3 == 0))).collect()
                 } else {
-                    turn += 1;
                     vec![all_kinds[turn % 4]]
                 };
                 for kind in kinds {
-                    let d = compressible(rng, kind, n);
+                    let d = compressible(rng, kind, n, None);
                     s.tally(&format!("compressible.len.{n}"));
                     s.tally(&format!("compressible.mode.{m}"));
                     s.tally(&format!("compressible.content.{kind:?}"));
@@ -728,7 +771,7 @@ fn compressible_family(s: &mut Session, rng: &mut Rng, thorough: bool, pool: &[(
                     continue;
                 }
                 let kind = *rng.pick(&[Kind::Zero, Kind::Const, Kind::Period, Kind::ModeByteFirst]);
-                let d = compressible(rng, kind, n);
+                let d = compressible(rng, kind, n, None);
                 let mut p = Prog::new();
                 p.big = true;
                 if cs != 256 * K {
@@ -755,7 +798,7 @@ fn compressible_family(s: &mut Session, rng: &mut Rng, thorough: bool, pool: &[(
     }
     if thorough {
         for m in ["Z", "4"] {
-            let d = compressible(rng, Kind::Zero, 1024 * K);
+            let d = compressible(rng, Kind::Zero, 1024 * K, None);
             let mut p = Prog::new();
             let tab = p.table_for(m, &split(256 * K, &d).unwrap());
             s.tally("compressible.split-into-large-chunks");
@@ -969,7 +1012,7 @@ fn entry_case(s: &mut Session, line: &str, views: bool, verbose: bool) {
         dec = real.run(&l.split(' ').collect::<Vec<_>>()).unwrap();
         let l2 = format!("decplain {} {}", h, tab);
         let decplain = real.run(&l2.split(' ').collect::<Vec<_>>()).unwrap();
-        if views && bytes.len() <= 3000 {
+        if views && bytes.len() <= 3000 && p.added.len() <= 70_000 {
             s.line(&l, &dec);
             s.line(&l2, &decplain);
             let l3 = format!("rows {}", h);
@@ -1411,7 +1454,7 @@ fn run_prog(s: &mut Session, p: &Prog) {
         dec = real.run(&l.split(' ').collect::<Vec<_>>()).unwrap();
         s.line(&l, &dec);
         // the remaining views repeat the container on the line; for big containers only `dec`
-        let small = bytes.len() <= 3000;
+        let small = bytes.len() <= 3000 && p.added.len() <= 70_000;
         if small {
             let l = format!("decplain {} {}", h, tab);
             let r = real.run(&l.split(' ').collect::<Vec<_>>()).unwrap();
@@ -1700,16 +1743,18 @@ fn main() {
     for k in 0..n_prog {
         let mut p = Prog::new();
         let max = if k % 100 == 0 { 3000 } else if k % 7 == 0 { 400 } else { 48 };
-        // one program in 25 is a large-chunk program: chunk sizes of 16 KiB .. 256 KiB (default),
+        // one program in 30 is a large-chunk program: chunk sizes of 16 KiB .. 256 KiB (default),
         // payload lengths around them, constant / periodic content, compressing modes
-        if k % 25 == 24 {
+        if k % 30 == 29 {
             p.big = true;
-            p.cs = *rng.pick(&[16usize << 10, 16 << 10, 32 << 10, 64 << 10, 256 << 10]);
+            p.cs = *rng.pick(&[16usize << 10, 16 << 10, 16 << 10, 32 << 10, 32 << 10, 64 << 10, 256 << 10]);
             if p.cs != 256 << 10 {
                 p.lines.push(format!("cs {}", p.cs));
             }
             p.mode = *rng.pick(&["Z", "Z", "4"]);
             p.lines.push(format!("mode {}", p.mode));
+            p.fill = rng.byte();
+            p.kinds = *rng.pick(&[&[Kind::Zero][..], &[Kind::Const], &[Kind::Const], &[Kind::Const, Kind::Period, Kind::ModeByteFirst], &[Kind::Zero, Kind::ModeByteFirst]]);
             if rng.chance(1, 2) {
                 let e = p.some_enc(&mut rng, &pool);
                 p.lines.push(format!("enc {}", e.toks()));
